@@ -68,7 +68,8 @@ SYS = {
 # actions are "kinds" = one of each kind in the fixed order edit, taint, break, drop blob, perturb, platform, relocate, or
 # "sink" = increasing in (kind, target), edits only of the last target, perturbations only deletions. depth 0 = not in that tier.
 CANON = {
- "C15": [("diamond minimal: edit of the sink, dropped blobs, deleted outputs", "diamond", ["EditInput", "Build", "DropBlob", "Perturb"], ["copy"], ["minimal"], ["ALL"], "sink", 6, 7, False),
+ "C15": [("pair minimal (two outputs; a bin_output only): edit of the sink, dropped blobs, deleted outputs", "pair", ["EditInput", "Build", "DropBlob", "Perturb"], ["copy"], ["minimal"], ["ALL"], "sink", 5, 6, False),
+         ("diamond minimal: edit of the sink, dropped blobs, deleted outputs", "diamond", ["EditInput", "Build", "DropBlob", "Perturb"], ["copy"], ["minimal"], ["ALL"], "sink", 6, 7, False),
          ("alias minimal: edit of the sink, dropped blobs, deleted outputs", "alias", ["EditInput", "Build", "DropBlob", "Perturb"], ["copy"], ["minimal"], ["ALL"], "sink", 0, 6, False),
          ("diamond minimal: edit, dropped blob, perturbation", "diamond", ["EditInput", "Build", "DropBlob", "Perturb"], ["copy"], ["minimal"], ["ALL"], "kinds", 0, 5, False),
          ("alias minimal: edit, dropped blob, perturbation", "alias", ["EditInput", "Build", "DropBlob", "Perturb"], ["copy"], ["minimal"], ["ALL", "c"], "kinds", 0, 5, False)],
